@@ -1,5 +1,13 @@
 /* drv_ser.c — serializer domain (C02).  Same script and observation format as
- * ocaml/drv_ser.ml:  "<tree in jvtext> <flags>,<flags>,..."; per flag value
+ * ocaml/drv_ser.ml:  "<tree in jvtext> <flags>,<flags>,... [<op>;<op>;...]"; the optional history is applied to
+ * the tree through the public API before it is serialized:
+ *   C  json_object_deep_copy, go on with the copy, release the original
+ *   K  the same, but the original is kept aside untouched and dumped at the end
+ *   R<flags>  go on with json_tokener_parse_ex(serialization of the tree under <flags>)   -> step "R <text hex>"
+ *   D<path>=<16hex> set_double   I<path>=<dec> set_int64   U<path>=<dec> set_uint64   B<path>=<0|1> set_boolean
+ *   T<path>=<hex|-> set_string_len   A<path>:<jvtext> replace the child (array_put_idx / object_add on the
+ *   existing key)   X<path> delete the child (array_del_idx / object_del);  <path> = @ (root) or i.j.k (child positions)
+ * then a step "tree <typed dump>" (and "aside <typed dump>" after K) precedes the per-flag steps.  Per flag value
  *   <text hex> <reported length> <json_object_equal(orig,reparsed)> <typed dump of reparsed> <re-serialization hex>
  * or <text hex> <reported length> PARSEFAIL <err>.  With JSON_C_TO_STRING_COLOR the colour
  * sequences ESC [ ... m are removed before the re-parse (the text column shows them). */
@@ -31,20 +39,189 @@ static const char *err_name(enum json_tokener_error e)
 	}
 }
 
+/* the node at a path; *parent / *idx receive the container and position of the last step */
+static struct json_object *child_at(struct json_object *o, size_t i, int *ok)
+{
+	*ok = 0;
+	if (!o) return NULL;
+	if (json_object_get_type(o) == json_type_array) {
+		if (i >= json_object_array_length(o)) return NULL;
+		*ok = 1;
+		return json_object_array_get_idx(o, i);
+	}
+	if (json_object_get_type(o) == json_type_object) {
+		struct lh_entry *e = json_object_get_object(o)->head;
+		while (e && i > 0) { e = e->next; i--; }
+		if (!e) return NULL;
+		*ok = 1;
+		return (struct json_object *)lh_entry_v(e);
+	}
+	return NULL;
+}
+static const char *key_at(struct json_object *o, size_t i)
+{
+	struct lh_entry *e = json_object_get_object(o)->head;
+	while (e && i > 0) { e = e->next; i--; }
+	return e ? (const char *)lh_entry_k(e) : NULL;
+}
+/* parses "@" or "i.j.k" up to the terminator; walks down from root.  With want_parent the last
+ * component is returned in *last and the walk stops at its container. */
+static struct json_object *walk(struct json_object *root, const char **pp, int want_parent, size_t *last, int *ok)
+{
+	const char *p = *pp;
+	struct json_object *o = root;
+	size_t comps[64], n = 0, i;
+	*ok = 1;
+	if (*p == '@') p++;
+	else {
+		for (;;) {
+			char *e;
+			if (n < 64) comps[n++] = (size_t)strtoull(p, &e, 10); else strtoull(p, &e, 10);
+			p = e;
+			if (*p == '.') { p++; continue; }
+			break;
+		}
+	}
+	*pp = p;
+	if (want_parent) {
+		if (n == 0) { *ok = 0; return NULL; }
+		*last = comps[--n];
+	}
+	for (i = 0; i < n; i++) {
+		int k;
+		o = child_at(o, comps[i], &k);
+		if (!k) { *ok = 0; return NULL; }
+	}
+	return o;
+}
+
+static void strip_color(char *copy, size_t tl)
+{
+	size_t i = 0, j = 0;
+	while (i < tl) {
+		if (copy[i] == 27 && copy[i + 1] == '[') {
+			size_t k = i + 2;
+			while (copy[k] == ';' || (copy[k] >= '0' && copy[k] <= '9')) k++;
+			if (copy[k] == 'm') { i = k + 1; continue; }
+		}
+		copy[j++] = copy[i++];
+	}
+	copy[j] = 0;
+}
+
+/* returns 0 when the history has to stop (a step was printed that says why) */
+static int apply_op(char *op, struct json_object **t, struct json_object **aside, int *has_aside, int *nsteps)
+{
+	const char *p = op + 1;
+	int ok;
+	size_t last = 0;
+	struct json_object *n;
+	switch (op[0]) {
+	case 'C': case 'K': {
+		struct json_object *c = NULL;
+		if (*t && json_object_deep_copy(*t, &c, NULL) != 0) {
+			if ((*nsteps)++) printf(" | ");
+			printf("COPYFAIL");
+			return 0;
+		}
+		if (op[0] == 'K') {
+			if (*has_aside) json_object_put(*aside);
+			*aside = *t; *has_aside = 1;
+		} else json_object_put(*t);
+		*t = c;
+		return 1; }
+	case 'R': {
+		int flags = atoi(p);
+		size_t len = 0, tl;
+		const char *text = json_object_to_json_string_length(*t, flags, &len);
+		char *copy;
+		struct json_tokener *tok;
+		struct json_object *r;
+		enum json_tokener_error e;
+		if ((*nsteps)++) printf(" | ");
+		if (!text) { printf("R NULLTEXT"); return 0; }
+		tl = strlen(text);
+		copy = (char *)(malloc)(tl + 1);
+		memcpy(copy, text, tl + 1);
+		printf("R "); puthex((const unsigned char *)copy, tl);
+		if (flags & JSON_C_TO_STRING_COLOR) strip_color(copy, tl);
+		tok = json_tokener_new();
+		r = json_tokener_parse_ex(tok, copy, -1);
+		e = json_tokener_get_error(tok);
+		json_tokener_free(tok);
+		(free)(copy);
+		if (e != json_tokener_success) {
+			printf(" PARSEFAIL %s", err_name(e));
+			if (r) json_object_put(r);
+			return 0;
+		}
+		json_object_put(*t);
+		*t = r;
+		return 1; }
+	case 'D': case 'I': case 'U': case 'B': case 'T':
+		n = walk(*t, &p, 0, &last, &ok);
+		if (*p != '=') { if ((*nsteps)++) printf(" | "); printf("BADOP"); return 0; }
+		p++;
+		if (!ok) return 1;                       /* the path addresses nothing */
+		switch (op[0]) {
+		case 'D': { uint64_t bits = strtoull(p, NULL, 16); double d; memcpy(&d, &bits, 8); json_object_set_double(n, d); break; }
+		case 'I': json_object_set_int64(n, (int64_t)strtoll(p, NULL, 10)); break;
+		case 'U': json_object_set_uint64(n, (uint64_t)strtoull(p, NULL, 10)); break;
+		case 'B': json_object_set_boolean(n, *p == '1'); break;
+		case 'T': { size_t len; unsigned char *b = unhex(p, &len); json_object_set_string_len(n, (const char *)b, (int)len); (free)(b); break; }
+		}
+		return 1;
+	case 'A': case 'X': {
+		struct json_object *v = NULL;
+		int err = 0;
+		n = walk(*t, &p, 1, &last, &ok);
+		if (op[0] == 'A') {
+			if (*p != ':') { if ((*nsteps)++) printf(" | "); printf("BADOP"); return 0; }
+			p++;
+			v = jv_parse(&p, &err);
+			if (err) { json_object_put(v); if ((*nsteps)++) printf(" | "); printf("BADOP"); return 0; }
+		}
+		if (ok && n && json_object_get_type(n) == json_type_array && last < json_object_array_length(n)) {
+			if (op[0] == 'A') { if (json_object_array_put_idx(n, last, v) != 0) json_object_put(v); }
+			else json_object_array_del_idx(n, last, 1);
+		} else if (ok && n && json_object_get_type(n) == json_type_object && key_at(n, last)) {
+			char *k = (strdup)(key_at(n, last));
+			if (op[0] == 'A') { if (json_object_object_add(n, k, v) != 0) json_object_put(v); }
+			else json_object_object_del(n, k);
+			(free)(k);
+		} else if (v) json_object_put(v);
+		return 1; }
+	default:
+		if ((*nsteps)++) printf(" | ");
+		printf("BADOP");
+		return 0;
+	}
+}
+
 void run_case(char *rest)
 {
-	char *sp = strchr(rest, ' ');
+	char *sp = strchr(rest, ' '), *sp2;
 	const char *p = rest;
-	char *fl, *save = NULL;
-	struct json_object *o;
-	int err = 0, first = 1;
+	char *fl, *save = NULL, *ops = NULL;
+	struct json_object *o, *aside = NULL;
+	int err = 0, nsteps = 0, has_aside = 0;
 	long live0;
 	xa_reset();
 	live0 = xa_live;
 	if (!sp) { printf("BADLINE"); return; }
 	*sp = 0;
+	sp2 = strchr(sp + 1, ' ');
+	if (sp2) { *sp2 = 0; ops = sp2 + 1; }
 	o = jv_parse(&p, &err);
 	if (err || *p) { printf("BADTREE"); json_object_put(o); return; }
+	if (ops) {
+		char *op, *save2 = NULL;
+		for (op = strtok_r(ops, ";", &save2); op; op = strtok_r(NULL, ";", &save2))
+			if (!apply_op(op, &o, &aside, &has_aside, &nsteps)) break;
+		if (nsteps++) printf(" | ");
+		printf("tree "); jv_dump(o);
+		if (has_aside) { printf(" | aside "); jv_dump(aside); json_object_put(aside); }
+	}
 	for (fl = strtok_r(sp + 1, ",", &save); fl; fl = strtok_r(NULL, ",", &save)) {
 		int flags = atoi(fl);
 		size_t len = (size_t)-1, tl;
@@ -53,8 +230,7 @@ void run_case(char *rest)
 		struct json_tokener *tok;
 		struct json_object *r;
 		enum json_tokener_error e;
-		if (!first) printf(" | ");
-		first = 0;
+		if (nsteps++) printf(" | ");
 		text = json_object_to_json_string_length(o, flags, &len);
 		if (!text) { printf("NULLTEXT %zu", len); continue; }
 		tl = strlen(text);
@@ -64,19 +240,8 @@ void run_case(char *rest)
 		memcpy(copy, text, tl + 1);
 		puthex((const unsigned char *)copy, tl);
 		printf(" %zu ", len);
-		if (flags & JSON_C_TO_STRING_COLOR) {
-			/* the property allows colour escapes: remove ESC [ ... m before the re-parse */
-			size_t i = 0, j = 0;
-			while (i < tl) {
-				if (copy[i] == 27 && copy[i + 1] == '[') {
-					size_t k = i + 2;
-					while (copy[k] == ';' || (copy[k] >= '0' && copy[k] <= '9')) k++;
-					if (copy[k] == 'm') { i = k + 1; continue; }
-				}
-				copy[j++] = copy[i++];
-			}
-			copy[j] = 0;
-		}
+		/* the property allows colour escapes: remove ESC [ ... m before the re-parse */
+		if (flags & JSON_C_TO_STRING_COLOR) strip_color(copy, tl);
 		tok = json_tokener_new();
 		r = json_tokener_parse_ex(tok, copy, -1);
 		e = json_tokener_get_error(tok);
